@@ -64,8 +64,8 @@ func assumptions(id string) []string {
 
 // expectedProbes lists rare-branch probes that must not stay at zero.
 var expectedProbes = map[string][]string{
-	"C19": {"gen_parsed", "short_reads_delivered", "encoding_over_4096", "decode_error_returned", "open_stream_decoded", "encoding_rechecked_after_later_encodes", "users_interleaved_inside_codec", "corpus_statement_round_trip"},
-	"C01": {"parse_tree", "short_reads_delivered", "parse_error_located", "cut_inside_token", "error_value_rechecked_after_later_parses", "users_interleaved_inside_lexer_or_parser", "fixed_source_parsed_before_and_after", "valid_source_with_test_syntax_words_parsed_plain", "plain_parse_repeated_after_custom_parsers"},
+	"C19": {"gen_parsed", "short_reads_delivered", "encoding_over_4096", "decode_error_returned", "open_stream_decoded", "encoding_rechecked_after_later_encodes", "users_interleaved_inside_codec", "corpus_statement_round_trip", "deep_stream_rejected_with_error"},
+	"C01": {"parse_tree", "short_reads_delivered", "parse_error_located", "cut_inside_token", "error_value_rechecked_after_later_parses", "users_interleaved_inside_lexer_or_parser", "fixed_source_parsed_before_and_after", "valid_source_with_test_syntax_words_parsed_plain", "plain_parse_repeated_after_custom_parsers", "deep_source_rejected_with_error"},
 	"C06": {"hit_branch_taken", "restart_limit_reached", "ratecounter_carried_over", "penaltybox_carried_over", "origin_transfer_broke_off_inside_body"},
 	"C08": {"timeout_fired", "call_depth_guard_reached", "restart_limit_reached", "include_missing_module", "runtime_error_reported", "tester_factory_returned", "tester_error_returned"},
 	"C11": {"map_with_2plus_keys_iterated", "permutation_checked", "diagnostics_reported", "linted_from_directory_tree", "relinted_after_another_program", "grammar_program_linted"},
